@@ -195,12 +195,25 @@ def _rechunk(stream: bytes, rng: random.Random) -> List[bytes]:
     return chunks
 
 
-async def _run_sessions(combos: List[Tuple[str, str, str, str]], rng: random.Random, thorough: bool) -> List[Dict[str, Any]]:
+def compression_rekey_combos(rng: random.Random) -> List[Tuple[str, str, str, str]]:
+    """one session per compression method other than `none`, always re-keyed on the way: RFC 4253 6.2 starts a new
+    compression context after each key exchange, in both directions (an independent inflater started at NEWKEYS
+    must read what follows)"""
+    encs, macs, cmps, kexs = ts.all_algs()
+    fast = [k for k in kexs if 'curve25519' in k] or kexs
+    pairs_ = [(e, m) for e in encs for m in (macs if ts.needs_mac(e) else ['']) if refpeer.supported(e, m)]
+    return [(*rng.choice(pairs_), c, fast[0]) for c in cmps if c != 'none']
+
+
+async def _run_sessions(combos: List[Tuple[str, str, str, str]], rng: random.Random, thorough: bool,
+                        always_rekey: int = 0) -> List[Dict[str, Any]]:
     out = []
     for i, combo in enumerate(combos):
         # every third session re-keys several times on the way (client side byte limit): framing, sequence numbers
         # and key epochs must stay in step across NEWKEYS, whichever cipher family frames the packets
         rekey = rng.choice([3000, 9000, 20000]) if i % 3 == 2 else None
+        if i < always_rekey:
+            rekey = 600             # counted in compressed bytes: the repetitive test data shrinks a lot
         sizes = _sizes(rng, thorough)
         if rekey:
             sizes = sizes + [rng.choice([4000, 9000])] * 3
@@ -217,11 +230,15 @@ def oracle(ctx: Ctx) -> OracleResult:
     if n is None and ctx.tier != 'thorough':
         rng.shuffle(combos)
         combos = combos[:120]
-    combos = key_stretch_combos(rng, 2 if n is not None else 8) + combos
-    sessions = pair.run(_run_sessions(combos, ctx.subrng('osessions'), ctx.tier == 'thorough'), timeout=3000)
+    crk = compression_rekey_combos(rng)
+    combos = crk + key_stretch_combos(rng, 2 if n is not None else 8) + combos
+    sessions = pair.run(_run_sessions(combos, ctx.subrng('osessions'), ctx.tier == 'thorough', always_rekey=len(crk)),
+                        timeout=3000)
     for sres in sessions:
         combo = sres['combo']
         res.evaluations += 1
+        if combo[2] != 'none' and len(sres.get('keys', {}).get('client', [])) > 1:
+            hist.hit('compressed-session-with-re-exchange')
         key = {'combo': list(combo), 'sizes': sres['sizes'], 'seed': ctx.seed}
         if sres['error']:
             res.failures.append(Failure(f'session-failed:{sres["error"].split(":")[0]}',
@@ -234,7 +251,7 @@ def oracle(ctx: Ctx) -> OracleResult:
             sent = [p for _q, p in sres['sent'][role]]
             recv = [p for _q, p, _n in sres['recv'][other]]
             hist.hit('packets', len(sent))
-            if sent != recv:
+            if sent != recv and not _teardown_tail_only(sent, recv):
                 res.failures.append(Failure('payload-sequence-differs',
                                             f'{combo} {role}->{other}: {len(sent)} payloads sent, {len(recv)} dispatched, '
                                             f'first difference at #{_first_diff(sent, recv)}', key))
@@ -245,7 +262,8 @@ def oracle(ctx: Ctx) -> OracleResult:
                 if problem:
                     res.failures.append(Failure('rfc-nonconformant:' + problem.split('(')[0].strip()[:40],
                                                 f'{combo} {role}: reference decoder: {problem} at packet #{len(pk or [])}', key))
-                elif [p['payload'] for p in pk] != sent:      # type: ignore
+                elif [p['payload'] for p in pk] != sent and \
+                        not _teardown_tail_only(sent, [p['payload'] for p in pk]):      # type: ignore
                     res.failures.append(Failure('wire-payload-differs-from-submitted',
                                                 f'{combo} {role}: decoded wire payloads differ from submitted ones', key))
             else:
@@ -257,6 +275,16 @@ def oracle(ctx: Ctx) -> OracleResult:
     res.rule = ('one real session per (cipher, mac, compression, kex) combination, both roles, write sizes around '
                 'block boundaries and >32k, seeded 1..40-byte re-chunking of the byte stream; distinct = combinations')
     return res
+
+
+def _teardown_tail_only(sent: List[bytes], got: List[bytes]) -> bool:
+    """`got` is a prefix of `sent` and what is missing are transport-layer messages only (DISCONNECT, IGNORE, key
+    exchange): the packets an endpoint writes while the other end is already closing the connection -- a re-exchange
+    that happens to start at the very end of the session -- can be neither dispatched nor found on the wire.  Any
+    service-level payload (type 50 and above) that is missing remains a failure."""
+    if len(got) > len(sent) or sent[:len(got)] != got:
+        return False
+    return all(p[:1] and (p[0] in (1, 2, 3, 4) or 20 <= p[0] <= 49) for p in sent[len(got):])
 
 
 def key_stretch_combos(rng: random.Random, k: int) -> List[Tuple[str, str, str, str]]:
